@@ -780,7 +780,7 @@ def run(rep, tier):
     rep.floor("trim cases", trim_rule(rep, u), 6)
     usrv = driver.load_units([common.src_unit("src/proto/http_server.c")])
     rep.use_units(usrv)
-    rep.floor("server framing obligations", server_framing_rules(rep, usrv), 4)
+    rep.floor("server framing obligations", server_framing_rules(rep, usrv), 5)
     count_rule(rep, u)
     rep.floor("method spellings", method_table(rep, u, consts), 14)
     rep.floor("target component searches", span_rule(rep, u), 2)
@@ -833,6 +833,27 @@ def server_framing_rules(rep, us):
         (rep.proved if ok else rep.violated)("R-FRAME", fn, "default-arm-reads-content-length", desc, "" if ok else
                                              "PUT, DELETE, OPTIONS, NOTIFY ... fall out of the switch with data_size 0: 'PUT /file ... Content-Length: 43' followed by 43 bytes "
                                              "that spell 'GET /smuggled HTTP/1.1' runs the callback twice")
+    # (a') an arm of its own that ends the request at the header block exists only for GET, for which the security check
+    # refuses Content-Length; every other method's arm consults the field (SUBSCRIBE had such an arm: its body was parsed as
+    # the next request)
+    for b in sw:
+        pd = fn.pdom().get(b, set()) - {b}
+        for s_ in fn.blocks[b].succ:
+            lab = fn.blocks[s_].label if s_ is not None else None
+            if not lab or "case" not in lab:
+                continue
+            # the blocks that belong to this arm alone: those its label block dominates (the function re-enters the switch
+            # for a pipelined request, so plain reachability covers everything)
+            arm = {x_ for x_ in fn.reachable_blocks() if fn.dominates(s_, x_)}
+            reads_cl = any(pos[0] in arm and (c.get("fn") or "").startswith("http_hdr_val_get") and any((_str_of(a) or "").lower() == "content-length" for a in c["args"])
+                           for pos, root, c, ps in fn.calls())
+            if reads_cl:
+                continue
+            n += 1
+            nm = lab.get("case_macro") or str(lab.get("case"))
+            ok = nm == "HTTP_REQ_METHOD_GET"
+            (rep.proved if ok else rep.violated)("R-FRAME", fn, "bodyless-arm:%s" % nm, "http_srv_recv_done_cb: the arm of %s ends the request at the header block only because Content-Length is refused for it" % nm,
+                                                 "" if ok else "'%s /evt .. Content-Length: 37' + 37 bytes spelling a DELETE request runs the callback twice" % nm.replace("HTTP_REQ_METHOD_", ""))
     for pos, root, c, ps in fn.calls({"io_buf_realloc"}):
         if "rcv_buf" not in key(c["args"][0]):
             continue
